@@ -46,6 +46,17 @@ func NewErrMultipleCommandsStatements() error {
 	return psqlerr.WithSeverity(psqlerr.WithCode(err, codes.Syntax), psqlerr.LevelError)
 }
 
+// errInvalidFormatCode is wrapped by the error returned whenever the client
+// sends a format code which is neither text (0) nor binary (1).
+var errInvalidFormatCode = errors.New("invalid format code")
+
+// newErrInvalidFormatCode is returned whenever a Bind message carries a
+// parameter or result-column format code which is neither text nor binary.
+func newErrInvalidFormatCode(code uint16) error {
+	err := fmt.Errorf("%w: %d", errInvalidFormatCode, code)
+	return psqlerr.WithSeverity(psqlerr.WithCode(err, codes.ProtocolViolation), psqlerr.LevelError)
+}
+
 // newErrClientCopyFailed is returned whenever the client aborts a copy operation.
 func newErrClientCopyFailed(desc string) error {
 	err := fmt.Errorf("client aborted copy: %s", desc)
@@ -452,12 +463,22 @@ func (srv *Session) handleBind(ctx context.Context, reader *buffer.Reader, write
 		return err
 	}
 
+	// NOTE: a format code other than text or binary is reported to the client,
+	// it is never passed on to the handlers nor announced inside a description.
 	parameters, err := srv.readParameters(ctx, reader)
+	if errors.Is(err, errInvalidFormatCode) {
+		return srv.extendedError(writer, err)
+	}
+
 	if err != nil {
 		return err
 	}
 
 	formats, err := srv.readColumnTypes(reader)
+	if errors.Is(err, errInvalidFormatCode) {
+		return srv.extendedError(writer, err)
+	}
+
 	if err != nil {
 		return err
 	}
@@ -502,6 +523,10 @@ func (srv *Session) readParameters(ctx context.Context, reader *buffer.Reader) (
 		format, err := reader.GetUint16()
 		if err != nil {
 			return nil, err
+		}
+
+		if FormatCode(format) != TextFormat && FormatCode(format) != BinaryFormat {
+			return nil, newErrInvalidFormatCode(format)
 		}
 
 		// NOTE: we have to set the default format code to the given format code
@@ -568,6 +593,10 @@ func (srv *Session) readColumnTypes(reader *buffer.Reader) ([]FormatCode, error)
 		format, err := reader.GetUint16()
 		if err != nil {
 			return nil, err
+		}
+
+		if FormatCode(format) != TextFormat && FormatCode(format) != BinaryFormat {
+			return nil, newErrInvalidFormatCode(format)
 		}
 
 		columns[i] = FormatCode(format)
